@@ -41,6 +41,7 @@ import (
 	"github.com/dadrus/heimdall/internal/rules/mechanisms/values"
 	"github.com/dadrus/heimdall/internal/x"
 	"github.com/dadrus/heimdall/internal/x/errorchain"
+	"github.com/dadrus/heimdall/internal/x/hashx"
 	"github.com/dadrus/heimdall/internal/x/stringx"
 )
 
@@ -340,17 +341,13 @@ func (a *remoteAuthorizer) calculateCacheKey(sub *subject.Subject, values map[st
 	binary.LittleEndian.PutUint64(ttlBytes, uint64(a.ttl))
 
 	hash := sha256.New()
-	hash.Write(a.e.Hash())
-	hash.Write(stringx.ToBytes(a.id))
-	hash.Write(stringx.ToBytes(strings.Join(a.headersForUpstream, ",")))
-	hash.Write(stringx.ToBytes(payload))
+	hashx.WriteBytes(hash, a.e.Hash())
+	hashx.WriteString(hash, a.id)
+	hashx.WriteStrings(hash, a.headersForUpstream)
+	hashx.WriteString(hash, payload)
 	hash.Write(ttlBytes)
-	hash.Write(sub.Hash())
-
-	for k, v := range values {
-		hash.Write(stringx.ToBytes(k))
-		hash.Write(stringx.ToBytes(v))
-	}
+	hashx.WriteBytes(hash, sub.Hash())
+	hashx.WriteStringMap(hash, values)
 
 	return hex.EncodeToString(hash.Sum(nil))
 }
